@@ -154,7 +154,8 @@ fn run(ctx: &mut Ctx) {
     {
         // DIFAT chains need > 109 FAT sectors: > 6.8 MiB with 512-byte sectors
         let big = || {
-            (7_200_000u32..7_600_000, any::<u32>(), layout_strategy(), size_strategy(5000)).prop_map(|(len, seed, mut layout, small)| {
+            // one DIFAT sector (> 109 FAT sectors) or two (> 236 FAT sectors, > 15.5 MB)
+            (prop_oneof![2 => 7_200_000u32..7_600_000, 1 => 15_600_000u32..16_300_000], any::<u32>(), layout_strategy(), size_strategy(5000)).prop_map(|(len, seed, mut layout, small)| {
                 layout.v4 = false;
                 Case { streams: vec![StreamSpec { path: vec![], name: "Workbook".into(), len, seed }, StreamSpec { path: vec![], name: "x".into(), len: small, seed: 1 }], layout }
             })
@@ -162,13 +163,29 @@ fn run(ctx: &mut Ctx) {
         let n = ctx.n(3, 24);
         ctx.run("container-difat", n, big, oracle);
     }
+    {
+        // more than one mini-FAT sector: with 4096-byte sectors that takes > 1024 mini sectors, i.e.
+        // more than 64 KiB of streams shorter than 4096 bytes (and then the mini FAT is longer than
+        // the directory, which fits one sector)
+        let many = || {
+            (17usize..32, 3_800u32..4_096, any::<u32>(), layout_strategy(), any::<bool>()).prop_map(|(n, len, seed, mut layout, v4)| {
+                layout.v4 = v4;
+                layout.unused_dir_entries = 0;
+                let mut streams: Vec<StreamSpec> = (0..n).map(|i| StreamSpec { path: vec![], name: format!("s{i}"), len: len - (i as u32 % 7), seed: seed.wrapping_add(i as u32) }).collect();
+                streams.push(StreamSpec { path: vec![], name: "Workbook".into(), len: 3_900, seed });
+                Case { streams, layout }
+            })
+        };
+        let n = ctx.n(5, 400);
+        ctx.run("container-minifat", n, many, oracle);
+    }
     let _ = BTreeMap::<u8, u8>::new();
     ctx.assumptions.push("stream names are unique in the file (the reader looks streams up by name only); the red-black directory tree is written as a valid unbalanced tree".into());
 }
 
 fn replay(sub: &str, case: &serde_json::Value) -> Option<Report> {
     match sub {
-        "container" | "container-difat" => replay_as::<Case>(case, oracle),
+        "container" | "container-difat" | "container-minifat" => replay_as::<Case>(case, oracle),
         _ => None,
     }
 }
